@@ -2142,9 +2142,16 @@ impl<'a> UserModel<'a> {
             }
             old_values.push(row_vals);
         }
+        // Entering plain text in the range can auto-link cells or remove their links
+        let mut old_links = Vec::new();
+        for r in row..row + height {
+            for c in column..column + width {
+                old_links.push((r, c, self.model.get_cell_link(sheet, r, c)?));
+            }
+        }
         self.model
             .set_user_array_formula(sheet, row, column, width, height, formula)?;
-        self.push_diff_list(vec![Diff::SetArrayValue {
+        let mut diff_list = vec![Diff::SetArrayValue {
             sheet,
             row,
             column,
@@ -2152,7 +2159,20 @@ impl<'a> UserModel<'a> {
             height,
             new_value: formula.to_string(),
             old_values,
-        }]);
+        }];
+        for (r, c, old_link) in old_links {
+            let new_link = self.model.get_cell_link(sheet, r, c)?;
+            if new_link != old_link {
+                diff_list.push(Diff::SetCellLink {
+                    sheet,
+                    row: r,
+                    column: c,
+                    old_value: Box::new(old_link),
+                    new_value: Box::new(new_link),
+                });
+            }
+        }
+        self.push_diff_list(diff_list);
         self.evaluate_if_not_paused();
         Ok(())
     }
